@@ -324,7 +324,10 @@ def time_at_offset_at(ck, prog, run):
     ck.same("R2", f_ta.where, "time_at(k) without start_time", "is None", tn is NONE, found=repr(tn))
     t = sp.Symbol("t", real=True)
     for form, arg, expected in (("absolute Time", Num(t / Hz, kind="time"), sp.floor((t - T0) * SR + sp.Rational(1, 2))),
-                                ("relative Quantity", Num(t / Hz, kind="quantity"), sp.floor(t * SR + sp.Rational(1, 2)))):
+                                ("relative Quantity", Num(t / Hz, kind="quantity"), sp.floor(t * SR + sp.Rational(1, 2))),
+                                ("relative Quantity held in seconds", Num(t / Hz, kind="quantity", unit=1 / Hz), sp.floor(t * SR + sp.Rational(1, 2))),
+                                ("relative Quantity held in minutes", Num(t / Hz, kind="quantity", unit=60 / Hz), sp.floor(t * SR + sp.Rational(1, 2))),
+                                ("relative Quantity held in days", Num(t / Hz, kind="quantity", unit=86400 / Hz), sp.floor(t * SR + sp.Rational(1, 2)))):
         ev2 = ck.evaluator()
         oa = ck.attempt("R2", f_oa.where, f"offset_at({form})", "evaluates", lambda: ev2.call(f_oa, [arg], {}, self_val=r), ev=ev2,
                         allowed_guards=["OutOfBoundsError"])
@@ -336,7 +339,8 @@ def time_at_offset_at(ck, prog, run):
                 is_nonneg(oa.expr, known) and is_nonneg(sp.expand(N - oa.expr), known), found=str([str(f)[:80] for f in ev2.last_frame.facts]), nontrivial=True)
     # inverse: offset_at(time_at(k)) == k, also through relative times
     for form, mk in (("absolute", lambda: ev.call(f_ta, [Num(k)], {}, self_val=r)),
-                     ("relative", lambda: ev.call(f_ta, [Num(k)], {"unit": Num(1 / Hz, kind="quantity", tag="unit", unit=1 / Hz)}, self_val=r))):
+                     ("relative", lambda: ev.call(f_ta, [Num(k)], {"unit": Num(1 / Hz, kind="quantity", tag="unit", unit=1 / Hz)}, self_val=r)),
+                     ("relative, in minutes", lambda: ev.call(f_ta, [Num(k)], {"unit": Num(60 / Hz, kind="quantity", tag="unit", unit=60 / Hz)}, self_val=r))):
         ev3 = ck.evaluator()
         res = ck.attempt("R2", f_oa.where, f"offset_at(time_at(k)) [{form}]", "evaluates",
                          lambda: ev3.call(f_oa, [mk()], {}, self_val=r), ev=ev3, allowed_guards=["OutOfBoundsError"])
